@@ -474,6 +474,16 @@ pub fn run(mut cx: Ctx) -> ! {
             dropped += 1;
         }
         if dropped == 0 || attempts > 4 {
+            // a compiler error located in the generated sources that cannot be removed by dropping a line (the
+            // shared declarations, a derive that panics): the typed mapping does not compile at all — a verdict.
+            // Anything else (cargo resolution, linker, toolchain) is a machinery failure.
+            let located: Vec<String> = el.iter().enumerate().filter(|(i, l)| l.starts_with("error") && el.get(i + 1).map_or(false, |x| x.trim().starts_with("--> src/"))).map(|(i, l)| format!("{} {}", l, el[i + 1].trim())).collect();
+            if !located.is_empty() {
+                st.violation("the generated program (derive / json_map! / json!) does not compile", || json!({"compiler": located.iter().take(3).collect::<Vec<_>>()}));
+                cx.stats.merge(st);
+                cx.cap("generated crate does not compile: nothing was run");
+                cx.finish();
+            }
             eprintln!("MACHINERY: generated crate does not build and the errors cannot be attributed:\n{}", err.chars().take(3000).collect::<String>());
             std::process::exit(3);
         }
